@@ -391,6 +391,8 @@ void TasmanianSparseGrid::getDifferentiationWeights(const std::vector<double> &x
 }
 void TasmanianSparseGrid::getDifferentiationWeights(const double x[], double weights[]) const{
     // See differentiate() for how the domain transforms are taken into consideration.
+    if (not conformal_asin_power.empty())
+        throw std::runtime_error("ERROR: getDifferentiationWeights() derivatives/Jacobians are not available for conformal mappings");
     Data2D<double> x_tmp;
     // Jacobian of f(.) at g(x).
     base->getDifferentiationWeights(formCanonicalPoints(x, x_tmp, 1), weights);
@@ -483,6 +485,8 @@ void TasmanianSparseGrid::integrate(double q[]) const{
 void TasmanianSparseGrid::differentiate(const double x[], double jacobian[]) const {
     // For a grid with a transformed-to-canonical operator g(x) and model f(x) over the canonical domain, this returns the
     // Jacobian of f(g(x)), i.e., [Jacobian of f(.) at g(x)] * [Jacobian of g(.) at x].
+    if (not conformal_asin_power.empty())
+        throw std::runtime_error("ERROR: differentiate() derivatives/Jacobians are not available for conformal mappings");
     Data2D<double> x_tmp;
     // Jacobian of f(.) at g(x).
     base->differentiate(formCanonicalPoints(x, x_tmp, 1), jacobian);
